@@ -11,6 +11,7 @@ for f in selftest/keep/*.diff; do echo "$f keep"; done >> /tmp/selftest.list
 cat /tmp/selftest.list | xargs -P 6 -L 1 sh -c '
   f="$0"; kind="$1"; prop=$(basename "$f" | cut -c1-3)
   out=$(selftest/mutate.sh "$f" "$prop" 2>&1)
+  if echo "$out" | grep -q "NOTE: mutant does not build"; then echo "BROKEN       $f (does not build any more: re-make it)"; exit 0; fi
   if echo "$out" | grep -q "^VIOLATION"; then v=1; else v=0; fi
   if [ "$kind" = break ] && [ $v = 1 ]; then echo "ok   caught  $f";
   elif [ "$kind" = keep ] && [ $v = 0 ]; then echo "ok   silent  $f";
